@@ -1,4 +1,4 @@
-"""C12 — concurrent senders never interleave packets (DESIGN §4 C12).  Async engine (``aionet``) only for now.
+"""C12 — concurrent senders never interleave packets (DESIGN §4 C12).  Engines: ``aionet``, ``tls``, ``threads``.
 
 N in 2..5 sender tasks, 1-4 self-identifying packets each (sender id, sequence number, length, position-dependent
 filler, trailer; sizes from 0 to several times the link capacity, serialised as several chunks), all calling
@@ -18,8 +18,11 @@ Oracle (an independent reference decoder, not the repo's code): the byte stream 
 error into exactly the multiset of packets sent; per sender the sequence numbers increase; every send_packet call
 returned normally; nothing hangs once the peer keeps reading.
 
-Threaded clients (TCPNetworkClient / UDPNetworkClient) and AsyncTLSStreamTransport.send_all need the thread scheduler /
-TLS peer: add further Harness entries on top of ``_Workload`` / ``_decode_wire`` / ``_check`` when they exist.
+  tls      N tasks calling AsyncTLSStreamTransport.send_all / send_all_from_iterable on ONE transport over the adapter, or
+           over a piecewise (non-atomic send_all) wrapper of it; the reference TLSPeer must decrypt exactly the multiset
+  threads-tcp / threads-udp   2-4 real threads under the baton scheduler (vsim.threads; switch rate 1/2..1/6 per scheduling
+           point, optional line-level pre-emption inside clients/tcp.py, clients/udp.py, lowlevel/_utils.py) calling
+           send_packet on ONE blocking TCPNetworkClient / UDPNetworkClient; UDP: one packet per datagram, none merged
 """
 from __future__ import annotations
 
@@ -57,10 +60,11 @@ RULE = (
 )
 COMPONENTS_REAL = [
     "AsyncTCPNetworkClient, AsyncTCPNetworkServer/_ConnectedClientAPI, lowlevel AsyncStreamServer/ConnectedStreamClient, AsyncStreamEndpoint",
+    "TCPNetworkClient, UDPNetworkClient (blocking, real threads), AsyncTLSStreamTransport",
     "FairLock, ResourceGuard, StreamDataProducer, AsyncioTransportStreamSocketAdapter, WriteFlowControl, asyncio backend TaskGroup/CancelScope",
     "CPython asyncio selector event loop and _SelectorSocketTransport (write buffer, pause/resume_writing)",
 ]
-COMPONENTS_STUB = ["SimSocket/SimNet (bounded half pipes, short writes, EAGAIN/EINTR)", "SimSelector + virtual clock", "scripted burst-reading peer"]
+COMPONENTS_STUB = ["SimSocket/SimNet (bounded half pipes, short writes, EAGAIN/EINTR)", "SimSelector + virtual clock", "scripted burst-reading peer", "baton thread scheduler (vsim.threads)", "reference TLS peer (stdlib ssl)"]
 ASSUMPTIONS = [
     "a send() accepts at most the free room of the link and never reports 0 bytes for non-empty data (DESIGN §2.6)",
     "the asyncio ready queue is FIFO and is never permuted",
